@@ -65,6 +65,11 @@ def check(spec, rng):
     if abs(zs_ - zp_) > tol * abs(zp_):
         viol.append({'id': 'one-load-on-several-pulses-differs-from-separate-equal-loads', 'pulses': chosen,
                      'expected': str(zp_), 'observed': str(zs_)})
+    # the SAME load object named twice on the feed pulse (two --attach-load options for one pulse): two equal loads in series
+    twice = Impedance_Load(zl)
+    zt = feedz(model(spec, [(twice, spec['feed']), (twice, spec['feed'])]))
+    if abs((zt - z0) - 2 * zl) > tol * max(abs(2 * zl), abs(z0)):
+        viol.append({'id': 'one-load-attached-twice-to-a-pulse-does-not-act-twice', 'expected': str(z0 + 2 * zl), 'observed': str(zt)})
     # circuit loads at this frequency
     f = spec['f']
     s = 2j * np.pi * f * 1e6
